@@ -21,14 +21,23 @@ open PyTealV.Proofs.Shape (ovf Blk lowInstr lowArgs isUnm retOut)
 section
 variable (cx : Ctx) (X : MCtx)
 
+/-- the caller's stack after `retsub`: without `proto` the stack is untouched; with `proto a r` the
+    arguments (the top `a` entries of the base) and everything above the base except the `r`
+    entries directly above it are removed -/
+def retStack (fr : GFrame) (ov : Option Val) (σ : List Val) : List Val :=
+  match fr.proto with
+  | none => (ov.toList ++ σ) ++ X.base
+  | some (a, r) => ((ov.toList ++ σ).reverse.take r).reverse ++ X.base.drop a
+
 /-- what the machine must do for a `.ret ov` result of the source evaluation started at block `s`
     with stack `σ` -/
 def RetGoal (s : Nat) (σ : List Val) (ic : List Nat) (bcs : List Bytes) (w : World) (ov : Option Val)
     (w' : World) : Prop :=
   match X.r, X.cs with
   | none, _ => ∃ v, ov = some v ∧ HaltO cx X ⟨s, 0⟩ ⟨σ, ic, bcs, w⟩ (retOut v w')
-  | some _, fr :: cs' => fr.proto = none ∧
-      ReachS cx X.Pg (X.st ⟨s, 0⟩ ⟨σ, ic, bcs, w⟩) ⟨fr.ret, fr.pt, cs', ⟨ov.toList ++ σ, ic, bcs, w'⟩⟩
+  | some _, fr :: cs' =>
+      ReachS X.dev X.ign cx X.Pg X.inv noInv (X.st ⟨s, 0⟩ (X.onBase ⟨σ, ic, bcs, w⟩))
+        ⟨fr.ret, fr.pt, cs', ⟨retStack X fr ov σ, ic, bcs, w'⟩⟩
   | some _, [] => False
 
 /-- What the machine, started at block `s` with stack `σ` and (source) world `w`, must do for a
@@ -63,7 +72,7 @@ theorem RetGoal.pre {s s0 : Nat} {σ : List Val} {ic bcs} {w w0 : World} {ov : O
     exact ⟨v, hv, pre.haltO hh⟩
   · rename_i l fr cs' hr hcs
     simp only [hr, hcs] at h
-    exact ⟨h.1, ReachS.trans pre h.2⟩
+    exact ReachS.trans pre h
   · rename_i l hr hcs
     simp only [hr, hcs] at h
 
@@ -125,18 +134,18 @@ variable {X : MCtx} {cfg : RCfg} {K : RK} {env : Env} {fuel : Nat}
 
 theorem pushV_reach {b k : Nat} {i : Instr} {v : Val} {σ ic bcs w}
     (hb : Blk X.G b [i] (.next k)) (hsim : isSimple i = true)
-    (hi : ∀ wm, SameW w wm → execSimple env.cx i ⟨σ, ic, bcs, wm⟩ = some (pushV ⟨σ, ic, bcs, wm⟩ v)) :
+    (hi : ∀ wm τ, SameW X.ign w wm → execSimple env.cx i ⟨τ, ic, bcs, wm⟩ = some (pushV ⟨τ, ic, bcs, wm⟩ v)) :
     ReachO env.cx X ⟨b, 0⟩ ⟨σ, ic, bcs, w⟩ ⟨k, 0⟩ ⟨v :: σ, ic, bcs, w⟩ := by
-  refine ReachO.of_block hb (by simpa using hsim) (fun wm hw _ => ?_)
-  by_cases hlt : σ.length < maxStack
-  · refine .inr ⟨wm, hw, ?_⟩
-    simp only [execOps, hi wm hw, pushV, hlt, if_true]
+  refine ReachO.of_block hb (by simpa using hsim) (fun wm hw hinv _ => ?_)
+  by_cases hlt : (σ ++ X.base).length < maxStack
+  · refine .inr ⟨wm, hw, hinv, ?_⟩
+    simp only [execOps, MCtx.onBase, hi wm _ hw, pushV, hlt, if_true, List.cons_append]
   · refine .inl ?_
-    simp only [execOps, hi wm hw, pushV, hlt, if_false, ovf]
+    simp only [execOps, MCtx.onBase, hi wm _ hw, pushV, hlt, if_false, ovf]
 
 theorem empty_reach {b k : Nat} {m : MS} (hb : Blk X.G b [] (.next k)) :
     ReachO env.cx X ⟨b, 0⟩ m ⟨k, 0⟩ m :=
-  ReachO.of_block hb (by simp) (fun wm hw _ => .inr ⟨wm, hw, rfl⟩)
+  ReachO.of_block hb (by simp) (fun wm hw hinv _ => .inr ⟨wm, hw, hinv, rfl⟩)
 
 theorem err_fails {b : Nat} {succ : Succ} {m : MS} (hb : Blk X.G b [.err] succ) : Fails env.cx X ⟨b, 0⟩ m :=
   Fails.of_block hb (by simp [isSimple]) (fun _ _ => ⟨_, rfl⟩)
@@ -183,13 +192,13 @@ theorem case_int {n s k L bc rc m σ ic bcs w r w'} (hb : Blk X.G s [.pushInt n]
     (h : eval env (fuel + 1) (.int n) w = (r, w')) : Goal env.cx X s k L bc rc K.rv m σ ic bcs w r w' := by
   simp only [eval] at h
   cases h
-  exact ⟨hm.symm ▸ rfl, pushV_reach hb rfl (fun _ _ => rfl)⟩
+  exact ⟨hm.symm ▸ rfl, pushV_reach hb rfl (fun _ _ _ => rfl)⟩
 
 theorem case_bytes {b s k L bc rc m σ ic bcs w r w'} (hb : Blk X.G s [.pushBytes b] (.next k)) (hm : m = 1)
     (h : eval env (fuel + 1) (.bytes b) w = (r, w')) : Goal env.cx X s k L bc rc K.rv m σ ic bcs w r w' := by
   simp only [eval] at h
   cases h
-  exact ⟨hm.symm ▸ rfl, pushV_reach hb rfl (fun _ _ => rfl)⟩
+  exact ⟨hm.symm ▸ rfl, pushV_reach hb rfl (fun _ _ _ => rfl)⟩
 
 theorem case_index {v s k L bc rc m σ ic bcs w r w'} (hmark : cfg.markIndex = false)
     (hb : Blk X.G s [if cfg.markIndex then .prim "__index" [toString v] else .pushInt v] (.next k)) (hm : m = 1)
@@ -197,18 +206,48 @@ theorem case_index {v s k L bc rc m σ ic bcs w r w'} (hmark : cfg.markIndex = f
   simp only [eval] at h
   cases h
   rw [hmark] at hb
-  exact ⟨hm.symm ▸ rfl, pushV_reach hb rfl (fun _ _ => rfl)⟩
+  exact ⟨hm.symm ▸ rfl, pushV_reach hb rfl (fun _ _ _ => rfl)⟩
 
 theorem case_load {v s k L bc rc m σ ic bcs w r w'} (hb : Blk X.G s [.load v] (.next k)) (hm : m = 1)
-    (hv : v < 256)
+    (hv : v < 256) (hvi : v ∉ X.ign)
     (h : eval env (fuel + 1) (.load v) w = (r, w')) : Goal env.cx X s k L bc rc K.rv m σ ic bcs w r w' := by
   simp only [eval] at h
   cases h
-  exact ⟨hm.symm ▸ rfl, pushV_reach hb rfl (fun wm hw => by simp only [execSimple, hv, if_true, hw.1 v])⟩
+  exact ⟨hm.symm ▸ rfl, pushV_reach hb rfl (fun wm τ hw => by simp only [execSimple, hv, if_true, hw.1 v hvi])⟩
 
-theorem case_store {v e s ob k L bc rc n σ ic bcs w r w'} (ih : AllX X cfg K env fuel)
+/-- the machine side of a by-value parameter under the frame-pointer convention: `frame_dig idx`
+    pushes the value that the source semantics keeps in the parameter cell `v` -/
+def FrameCell (cx : Ctx) (X : MCtx) (idx : Int) (v : Nat) : Prop :=
+  ∃ val, (∀ w, X.inv w → getSlot w.scratch v = val) ∧
+    ∀ (b : Nat) (blk : Block) (m : MS), X.G[b]? = some blk → blk.ops = [.frameDig idx] →
+      gstepP cx X.Pg (X.st ⟨b, 0⟩ (X.onBase m)) =
+        (match pushV (X.onBase m) val with
+         | .ok m' => .next (X.st ⟨b, 1⟩ m')
+         | .halt o => .halt o)
+
+theorem case_loadF {v idx s k L bc rc m σ ic bcs w r w'} (hb : Blk X.G s [.frameDig idx] (.next k)) (hm : m = 1)
+    (hc : FrameCell env.cx X idx v)
+    (h : eval env (fuel + 1) (.load v) w = (r, w')) : Goal env.cx X s k L bc rc K.rv m σ ic bcs w r w' := by
+  simp only [eval] at h
+  cases h
+  refine ⟨hm.symm ▸ rfl, ?_⟩
+  obtain ⟨val, hval, hstep⟩ := hc
+  intro wm hw hinv hbound
+  have hst := hstep s _ ⟨σ, ic, bcs, wm⟩ hb rfl
+  rw [hval w hinv]
+  by_cases hlt : (σ ++ X.base).length < maxStack
+  · refine .inr ⟨wm, hw, hinv, ?_⟩
+    simp only [pushV, MCtx.onBase, hlt, if_true] at hst
+    refine (ReachP.step hst).trans (.step ?_)
+    unfold Blk at hb
+    exact step_exit hb rfl rfl
+  · refine .inl ⟨ovfF, X.devOvf, .step ?_⟩
+    simp only [pushV, MCtx.onBase, hlt, if_false] at hst
+    exact hst
+
+theorem case_store {v e s ob k L bc rc n σ ic bcs w r w'} (ih : AllX X cfg K env fuel) (hX : X.InvOK)
     (hb : Blk X.G ob [.store v] (.next k)) (he : ShapeR X.G cfg e s ob L)
-    (hn : n = 0) (hv : v < 256) (hwe : wtR K false false 1 e = true)
+    (hn : n = 0) (hv : v < 256) (hvi : v ∉ X.ign) (hwe : wtR K false false 1 e = true)
     (h : eval env (fuel + 1) (.store v e) w = (r, w')) : Goal env.cx X s k L bc rc K.rv n σ ic bcs w r w' := by
   simp only [eval] at h
   rcases hev : eval env fuel e w with ⟨r1, w1⟩
@@ -221,43 +260,56 @@ theorem case_store {v e s ob k L bc rc n σ ic bcs w r w'} (ih : AllX X cfg K en
     | [x], _ =>
       simp only [] at h
       cases h
-      refine ⟨hn.symm ▸ rfl, hr.trans (ReachO.of_block hb (by simp [isSimple]) (fun wm hw _ => .inr ⟨_, hw.set v x, ?_⟩))⟩
-      simp only [execOps, execSimple, hv, if_true, List.cons_append, List.nil_append]
+      refine ⟨hn.symm ▸ rfl, hr.trans (ReachO.of_block hb (by simp [isSimple])
+        (fun wm hw hinv _ => .inr ⟨_, hw.set v x, hX.set hvi hinv, ?_⟩))⟩
+      simp only [execOps, execSimple, MCtx.onBase, hv, if_true, List.cons_append, List.nil_append]
   | _ =>
     simp only [] at h
     cases h
     exact g1.same (by intro vs hh; cases hh) (by simp) (by simp)
 
-theorem renOp_of_sig {op : String} {k0 p : Nat} (h : primSigR op = some (k0, p)) : renOp op = op := by
+theorem renOp_same {op : String} (h : Models.Optimizer.framedOps.contains op = true ∨ op = "loads" ∨ op = "stores") : renOp op = op := by
   unfold renOp
   split
   · rename_i hop
     simp only [beq_iff_eq] at hop
     subst hop
-    have : primSigR "vloads" = none := by decide
-    rw [this] at h; cases h
+    rcases h with hf | hh | hh
+    · exact absurd hf (by decide)
+    · exact absurd hh (by decide)
+    · exact absurd hh (by decide)
   · split
     · rename_i hop
       simp only [beq_iff_eq] at hop
       subst hop
-      have : primSigR "vstores" = none := by decide
-      rw [this] at h; cases h
+      rcases h with hf | hh | hh
+      · exact absurd hf (by decide)
+      · exact absurd hh (by decide)
+      · exact absurd hh (by decide)
     · rfl
 
-/-- executing a `prim` block whose opcode has a signature -/
-theorem prim_block {op imms ob k k0 p st σ ic bcs w1} (hsig : primSigR op = some (k0, p))
+/-- executing a `prim` block whose opcode the machine runs under the same name -/
+theorem prim_block_same {op imms ob k k0 p st σ ic bcs w1} (hKI : K.ign = X.ign) (hX : X.InvOK)
+    (hsig' : Models.Fragment.primSig op = some (k0, p))
+    (hk : Models.Optimizer.framedOps.contains op = true ∨ (K.ign = [] ∧ (op = "loads" ∨ op = "stores")))
     (hb : Blk X.G ob [.prim op imms] (.next k)) (hlen : st.length = k0) :
     match execPrim env.cx op imms w1 st with
     | .ok (st', w2) => st'.length = p ∧
         ReachO env.cx X ⟨ob, 0⟩ ⟨st ++ σ, ic, bcs, w1⟩ ⟨k, 0⟩ ⟨st' ++ σ, ic, bcs, w2⟩
     | .error _ => Fails env.cx X ⟨ob, 0⟩ ⟨st ++ σ, ic, bcs, w1⟩ := by
-  have hsig' := primSigR_primSig hsig
+  have hign : ∀ {a a' : World} {st st' : List Val}, execPrim env.cx op imms a st = .ok (st', a') →
+      ∀ s, s ∈ X.ign → getSlot a'.scratch s = getSlot a.scratch s := by
+    intro a a' st st' hA s hs
+    rcases hk with hf | ⟨hI, _⟩
+    · rw [framed_scratch hf env.cx imms hA]
+    · rw [← hKI, hI] at hs; cases hs
   cases hB : execPrim env.cx op imms w1 st with
   | error f =>
     simp only []
     refine Fails.of_block hb (by simp [isSimple]) (fun wm hw => ⟨f, ?_⟩)
-    have hc := execPrim_sameW hsig env.cx imms hw st
-    obtain ⟨h1, _⟩ := execPrim_sig hsig' env.cx imms wm st σ hlen
+    rw [← hKI] at hw
+    have hc := execPrim_sameW hk env.cx imms hw st
+    obtain ⟨h1, _⟩ := execPrim_sig hsig' env.cx imms wm st (σ ++ X.base) hlen
     rw [hB] at hc
     cases hB' : execPrim env.cx op imms wm st with
     | ok x => rw [hB'] at hc; obtain ⟨a, b⟩ := x; exact hc.elim
@@ -265,14 +317,16 @@ theorem prim_block {op imms ob k k0 p st σ ic bcs w1} (hsig : primSigR op = som
       rw [hB'] at hc h1
       simp only [CongR] at hc
       subst hc
-      simp only [execOps, execSimple, h1, liftR]
+      simp only [execOps, execSimple, MCtx.onBase, List.append_assoc, h1, liftR]
   | ok x =>
     obtain ⟨st', w2⟩ := x
     simp only []
     obtain ⟨_, h2⟩ := execPrim_sig hsig' env.cx imms w1 st σ hlen
-    refine ⟨h2 _ _ hB, ReachO.of_block hb (by simp [isSimple]) (fun wm hw _ => ?_)⟩
-    have hc := execPrim_sameW hsig env.cx imms hw st
-    obtain ⟨h1, _⟩ := execPrim_sig hsig' env.cx imms wm st σ hlen
+    refine ⟨h2 _ _ hB, ReachO.of_block hb (by simp [isSimple]) (fun wm hw hinv _ => ?_)⟩
+    have hw0 := hw
+    rw [← hKI] at hw
+    have hc := execPrim_sameW hk env.cx imms hw st
+    obtain ⟨h1, _⟩ := execPrim_sig hsig' env.cx imms wm st (σ ++ X.base) hlen
     rw [hB] at hc
     cases hB' : execPrim env.cx op imms wm st with
     | error f' => rw [hB'] at hc; exact hc.elim
@@ -280,17 +334,106 @@ theorem prim_block {op imms ob k k0 p st σ ic bcs w1} (hsig : primSigR op = som
       obtain ⟨st2, w2'⟩ := y
       rw [hB'] at hc h1
       obtain ⟨rfl, hw2⟩ := hc
-      by_cases hlt : (st' ++ σ).length ≤ maxStack
-      · refine .inr ⟨w2', hw2, ?_⟩
-        simp only [execOps, execSimple, h1, liftR, hlt, if_true]
+      rw [hKI] at hw2
+      have hinv2 : X.inv w2 := hX w1 w2 (fun s hs => hign hB s hs) hinv
+      by_cases hlt : (st' ++ (σ ++ X.base)).length ≤ maxStack
+      · refine .inr ⟨w2', hw2, hinv2, ?_⟩
+        simp only [execOps, execSimple, MCtx.onBase, List.append_assoc, h1, liftR, hlt, if_true]
       · refine .inl ?_
-        simp only [execOps, execSimple, h1, liftR, hlt, if_false, ovf]
+        simp only [execOps, execSimple, MCtx.onBase, List.append_assoc, h1, liftR, hlt, if_false, ovf]
 
-theorem case_prim {op imms args s ob k L bc n σ ic bcs w r w' k0 p} (ih : AllX X cfg K env fuel)
+/-- `vloads` / `vstores`: the source semantics accepts every slot number, the generated `loads` /
+    `stores` checks the range: a permitted deviation (`X.dev rangeL / rangeS`) -/
+theorem prim_block_dyn {op imms ob k k0 p st σ ic bcs w1} (hI : X.ign = []) (hX : X.InvOK)
+    (hdev : X.dev rangeL ∧ X.dev rangeS)
+    (hsig' : Models.Fragment.primSig op = some (k0, p)) (hop : op = "vloads" ∨ op = "vstores")
+    (hb : Blk X.G ob [.prim (renOp op) imms] (.next k)) (hlen : st.length = k0) :
+    match execPrim env.cx op imms w1 st with
+    | .ok (st', w2) => st'.length = p ∧
+        ReachO env.cx X ⟨ob, 0⟩ ⟨st ++ σ, ic, bcs, w1⟩ ⟨k, 0⟩ ⟨st' ++ σ, ic, bcs, w2⟩
+    | .error _ => Fails env.cx X ⟨ob, 0⟩ ⟨st ++ σ, ic, bcs, w1⟩ := by
+  have hinvAny : ∀ w w' : World, X.inv w → X.inv w' :=
+    fun w w' h => hX w w' (fun s hs => by rw [hI] at hs; cases hs) h
+  rcases hop with rfl | rfl
+  · -- vloads
+    have hk0 : k0 = 1 := by
+      have : Models.Fragment.primSig "vloads" = some (1, 1) := by decide
+      rw [this] at hsig'; cases hsig'; rfl
+    have hp1 : p = 1 := by
+      have : Models.Fragment.primSig "vloads" = some (1, 1) := by decide
+      rw [this] at hsig'; cases hsig'; rfl
+    subst hk0 hp1
+    have hb' : Blk X.G ob [.prim "loads" imms] (.next k) := hb
+    match st, hlen with
+    | [.b x], _ =>
+      rw [exec_vloads_b]
+      refine Fails.of_block hb' (by simp [isSimple]) (fun wm _ => ⟨.typeErr "expected uint64", ?_⟩)
+      simp only [execOps, execSimple, MCtx.onBase, List.cons_append, List.nil_append, exec_loads_b]
+    | [.u s], _ =>
+      rw [exec_vloads_u]
+      refine ⟨rfl, ReachO.of_block_dev hb' (by simp [isSimple]) (fun wm hw hinv hbound => ?_)⟩
+      by_cases hs : s < 256
+      · refine .inr ⟨wm, hw, hinv, ?_⟩
+        have hbound' : (getSlot wm.scratch s :: (σ ++ X.base)).length ≤ maxStack := by
+          simpa using hbound
+        simp only [execOps, execSimple, MCtx.onBase, List.cons_append, List.nil_append, exec_loads_u, hs, if_true,
+          hbound', hw.1 s (by rw [hI]; simp)]
+      · refine .inl ⟨rangeL, hdev.1, ?_⟩
+        simp only [execOps, execSimple, MCtx.onBase, List.cons_append, List.nil_append, exec_loads_u, hs, if_false,
+          rangeL]
+  · -- vstores
+    have hk0 : k0 = 2 := by
+      have : Models.Fragment.primSig "vstores" = some (2, 0) := by decide
+      rw [this] at hsig'; cases hsig'; rfl
+    have hp0 : p = 0 := by
+      have : Models.Fragment.primSig "vstores" = some (2, 0) := by decide
+      rw [this] at hsig'; cases hsig'; rfl
+    subst hk0 hp0
+    have hb' : Blk X.G ob [.prim "stores" imms] (.next k) := hb
+    match st, hlen with
+    | [b, .b x], _ =>
+      rw [exec_vstores_b]
+      refine Fails.of_block hb' (by simp [isSimple]) (fun wm _ => ⟨.typeErr "expected uint64", ?_⟩)
+      simp only [execOps, execSimple, MCtx.onBase, List.cons_append, List.nil_append, exec_stores_b]
+    | [b, .u s], _ =>
+      rw [exec_vstores_u]
+      refine ⟨rfl, ReachO.of_block_dev hb' (by simp [isSimple]) (fun wm hw hinv hbound => ?_)⟩
+      by_cases hs : s < 256
+      · refine .inr ⟨_, hw.set s b, hinvAny _ _ hinv, ?_⟩
+        have hbound' : (σ ++ X.base).length ≤ maxStack := by
+          have : (b :: Val.u s :: (σ ++ X.base)).length ≤ maxStack := by simpa using hbound
+          simp only [List.length_cons] at this
+          omega
+        simp only [execOps, execSimple, MCtx.onBase, List.cons_append, List.nil_append, exec_stores_u, hs, if_true,
+          hbound']
+      · refine .inl ⟨rangeS, hdev.2, ?_⟩
+        simp only [execOps, execSimple, MCtx.onBase, List.cons_append, List.nil_append, exec_stores_u, hs, if_false,
+          rangeS]
+
+/-- executing a `prim` block whose opcode has a signature -/
+theorem prim_block {op imms ob k k0 p st σ ic bcs w1} (hKI : K.ign = X.ign) (hX : X.InvOK)
+    (hdyn : K.dyn = true → X.dev rangeL ∧ X.dev rangeS)
+    (hsig : primSigK K op = some (k0, p))
+    (hb : Blk X.G ob [.prim (renOp op) imms] (.next k)) (hlen : st.length = k0) :
+    match execPrim env.cx op imms w1 st with
+    | .ok (st', w2) => st'.length = p ∧
+        ReachO env.cx X ⟨ob, 0⟩ ⟨st ++ σ, ic, bcs, w1⟩ ⟨k, 0⟩ ⟨st' ++ σ, ic, bcs, w2⟩
+    | .error _ => Fails env.cx X ⟨ob, 0⟩ ⟨st ++ σ, ic, bcs, w1⟩ := by
+  obtain ⟨hsig', hkind⟩ := primSigK_cases hsig
+  cases hkind with
+  | framed hf =>
+    rw [renOp_same (.inl hf)] at hb
+    exact prim_block_same hKI hX hsig' (.inl hf) hb hlen
+  | slot hI hop =>
+    rw [renOp_same (.inr hop)] at hb
+    exact prim_block_same hKI hX hsig' (.inr ⟨hI, hop⟩) hb hlen
+  | dyn hI hd hop => exact prim_block_dyn (hKI ▸ hI) hX (hdyn hd) hsig' hop hb hlen
+
+theorem case_prim {op imms args s ob k L bc n σ ic bcs w r w' k0 p} (ih : AllX X cfg K env fuel) (hKI : K.ign = X.ign) (hX : X.InvOK)
+    (hdyn : K.dyn = true → X.dev rangeL ∧ X.dev rangeS)
     (hb : Blk X.G ob [.prim (renOp op) imms] (.next k)) (ha : ShapeRArgs X.G cfg args s ob L)
-    (hsig : primSigR op = some (k0, p)) (hk : args.length = k0) (hp : p = n) (hwa : wtRArgs K args = true)
+    (hsig : primSigK K op = some (k0, p)) (hk : args.length = k0) (hp : p = n) (hwa : wtRArgs K args = true)
     (h : eval env (fuel + 1) (.prim op imms args) w = (r, w')) : Goal env.cx X s k L bc rc K.rv n σ ic bcs w r w' := by
-  rw [renOp_of_sig hsig] at hb
   simp only [eval] at h
   rcases hev : evalArgs env fuel args w [] with ⟨r1, w1⟩
   rw [hev] at h
@@ -299,7 +442,7 @@ theorem case_prim {op imms args s ob k L bc n σ ic bcs w r w' k0 p} (ih : AllX 
   cases r1 with
   | vals st =>
     obtain ⟨hlen, hr⟩ := g1
-    have pb := prim_block (env := env) (σ := σ) (ic := ic) (bcs := bcs) (w1 := w1) hsig hb (hlen.trans hk)
+    have pb := prim_block (env := env) (σ := σ) (ic := ic) (bcs := bcs) (w1 := w1) hKI hX hdyn hsig hb (hlen.trans hk)
     simp only [] at h
     cases hB : execPrim env.cx op imms w1 st with
     | error f =>
@@ -732,24 +875,24 @@ theorem case_assert3 {c s ob k L bc rc n σ ic bcs w r w'} (ih : AllX X cfg K en
         simp only [] at h
         cases h
         refine typeErr_goal (hr.fails (Fails.of_block hb (by simp [isSimple]) (fun wm _ => ⟨.typeErr "expected uint64", ?_⟩)))
-        simp only [execOps, execSimple, List.cons_append, List.nil_append, exec_assert]
+        simp only [execOps, execSimple, MCtx.onBase, List.cons_append, List.nil_append, exec_assert]
       | u m =>
         simp only [] at h
         by_cases hm : m = 0
         · simp only [hm, ne_eq, not_true_eq_false, if_false] at h
           cases h
           refine .inr (hr.fails (Fails.of_block hb (by simp [isSimple]) (fun wm _ => ⟨.logic "assert failed", ?_⟩)))
-          simp only [execOps, execSimple, List.cons_append, List.nil_append, exec_assert, hm, ne_eq,
+          simp only [execOps, execSimple, MCtx.onBase, List.cons_append, List.nil_append, exec_assert, hm, ne_eq,
             not_true_eq_false, if_false]
         · simp only [hm, ne_eq, not_false_eq_true, if_true] at h
           cases h
-          refine ⟨rfl, hr.trans (ReachO.of_block hb (by simp [isSimple]) (fun wm hw _ => ?_))⟩
-          by_cases hlt : σ.length ≤ maxStack
-          · refine .inr ⟨wm, hw, ?_⟩
-            simp only [execOps, execSimple, List.cons_append, List.nil_append, exec_assert, hm, ne_eq,
+          refine ⟨rfl, hr.trans (ReachO.of_block hb (by simp [isSimple]) (fun wm hw hinv _ => ?_))⟩
+          by_cases hlt : (σ ++ X.base).length ≤ maxStack
+          · refine .inr ⟨wm, hw, hinv, ?_⟩
+            simp only [execOps, execSimple, MCtx.onBase, List.cons_append, List.nil_append, exec_assert, hm, ne_eq,
               not_false_eq_true, if_true, hlt]
           · refine .inl ?_
-            simp only [execOps, execSimple, List.cons_append, List.nil_append, exec_assert, hm, ne_eq,
+            simp only [execOps, execSimple, MCtx.onBase, List.cons_append, List.nil_append, exec_assert, hm, ne_eq,
               not_false_eq_true, if_true, hlt, if_false, ovf]
   | _ =>
     simp only [] at h
@@ -795,13 +938,40 @@ theorem ret_block {ob k x σ ic bcs w1} (hb : Blk X.G ob [.ret] (.next k)) :
     | b y => rfl
   · cases x <;> rfl
 
-/-- the two kinds of routine: in the main routine `ret` ends the program; in a subroutine (scratch
-    convention) `retsub` returns to the innermost frame, which carries no `proto` -/
-inductive RKind (X : MCtx) (cfg : RCfg) : Prop
-  | main : cfg.inSub = false → X.r = none → RKind X cfg
-  | sub {l fr cs'} : cfg.inSub = true → X.r = some l → X.cs = fr :: cs' → fr.proto = none → RKind X cfg
+/-- the three kinds of routine: in the main routine `ret` ends the program; in a subroutine
+    `retsub` returns to the innermost frame, which carries no `proto` under the scratch-slot
+    convention and `proto a r` (`r` = number of results) under the frame-pointer convention -/
+inductive RKind (X : MCtx) (cfg : RCfg) (K : RK) : Prop
+  | main : cfg.inSub = false → X.r = none → RKind X cfg K
+  | sub {l fr cs'} : cfg.inSub = true → X.r = some l → X.cs = fr :: cs' → fr.proto = none → RKind X cfg K
+  | subFp {l fr cs' a r} : cfg.inSub = true → X.r = some l → X.cs = fr :: cs' → fr.proto = some (a, r) →
+      fr.height = X.base.length → a ≤ X.base.length → r = (if K.rv then 1 else 0) → RKind X cfg K
 
-theorem case_ret {e s ob k L bc rc n σ ic bcs w r w'} (ih : AllX X cfg K env fuel) (hR : RKind X cfg)
+/-- the `retsub` block as a `ReachS` to the caller's state -/
+theorem retsub_reach {b k : Nat} {l : String} {fr : GFrame} {cs' : List GFrame} {ov : Option Val} {σ ic bcs w}
+    (hR : RKind X cfg K) (hb : Blk X.G b [.retsub] (.next k)) (hr0 : X.r = some l) (hcs : X.cs = fr :: cs')
+    (hov : ov.isSome = K.rv) :
+    ReachS X.dev X.ign env.cx X.Pg X.inv noInv (X.st ⟨b, 0⟩ (X.onBase ⟨ov.toList ++ σ, ic, bcs, w⟩))
+      ⟨fr.ret, fr.pt, cs', ⟨retStack X fr ov σ, ic, bcs, w⟩⟩ := by
+  intro wm hw _ _
+  refine .inr ⟨wm, hw, trivial, .step ?_⟩
+  cases hR with
+  | main _ hr0' => rw [hr0] at hr0'; cases hr0'
+  | sub _ _ hcs' hpr =>
+    rw [hcs] at hcs'; cases hcs'
+    simp only [retStack, hpr]
+    exact retsub_step hb hcs hpr
+  | subFp _ _ hcs' hpr hh ha hr =>
+    rw [hcs] at hcs'; cases hcs'
+    simp only [retStack, hpr]
+    have hlen : (if K.rv then 1 else 0) ≤ (ov.toList ++ σ).length := by
+      cases ov with
+      | none => simp only [Option.isSome_none] at hov; simp [← hov]
+      | some x => simp only [Option.isSome_some] at hov; simp [← hov]
+    rw [← hr] at hlen
+    exact retsub_step_proto (top := ov.toList ++ σ) hb hcs hpr hh ha hlen
+
+theorem case_ret {e s ob k L bc rc n σ ic bcs w r w'} (ih : AllX X cfg K env fuel) (hR : RKind X cfg K)
     (hb : Blk X.G ob [if cfg.inSub then .retsub else .ret] (.next k)) (he : ShapeR X.G cfg e s ob L)
     (hrc : rc = true) (hrv : K.rv = true) (hwe : wtR K false false 1 e = true)
     (h : eval env (fuel + 1) (.ret (some e)) w = (r, w')) : Goal env.cx X s k L bc rc K.rv n σ ic bcs w r w' := by
@@ -817,34 +987,41 @@ theorem case_ret {e s ob k L bc rc n σ ic bcs w r w'} (ih : AllX X cfg K env fu
       simp only [] at h
       cases h
       refine ⟨hrc, by simp [hrv], ?_⟩
+      have hsubcase : ∀ {l fr cs'}, cfg.inSub = true → X.r = some l → X.cs = fr :: cs' →
+          RetGoal env.cx X s σ ic bcs w (some x) w' := by
+        intro l fr cs' hsub hr0 hcs
+        rw [hsub] at hb
+        unfold RetGoal
+        simp only [hr0, hcs]
+        exact ReachS.trans hr (retsub_reach (ov := some x) hR hb hr0 hcs (by simp [hrv]))
       cases hR with
       | main hsub hr0 =>
         rw [hsub] at hb
         unfold RetGoal
         simp only [hr0]
         exact ⟨x, rfl, hr.haltO (ret_block hb)⟩
-      | sub hsub hr0 hcs hpr =>
-        rw [hsub] at hb
-        unfold RetGoal
-        simp only [hr0, hcs]
-        exact ⟨hpr, ReachS.trans hr (retsub_reach hb hcs hpr)⟩
+      | sub hsub hr0 hcs _ => exact hsubcase hsub hr0 hcs
+      | subFp hsub hr0 hcs _ _ _ _ => exact hsubcase hsub hr0 hcs
   | _ =>
     simp only [] at h
     cases h
     exact g1.same (by intro vs hh; cases hh) (by simp) (by simp)
 
-theorem case_retNone {s k L bc rc n σ ic bcs w r w'} (hR : RKind X cfg) (hsub : cfg.inSub = true)
+theorem case_retNone {s k L bc rc n σ ic bcs w r w'} (hR : RKind X cfg K) (hsub : cfg.inSub = true)
     (hb : Blk X.G s [.retsub] (.next k)) (hrc : rc = true) (hrv : K.rv = false)
     (h : eval env (fuel + 1) (.ret none) w = (r, w')) : Goal env.cx X s k L bc rc K.rv n σ ic bcs w r w' := by
   simp only [eval] at h
   cases h
   refine ⟨hrc, by simp [hrv], ?_⟩
-  cases hR with
-  | main hsub' _ => rw [hsub] at hsub'; cases hsub'
-  | sub _ hr0 hcs hpr =>
+  have hsubcase : ∀ {l fr cs'}, X.r = some l → X.cs = fr :: cs' → RetGoal env.cx X s σ ic bcs w none w := by
+    intro l fr cs' hr0 hcs
     unfold RetGoal
     simp only [hr0, hcs]
-    exact ⟨hpr, retsub_reach hb hcs hpr⟩
+    exact retsub_reach (ov := none) hR hb hr0 hcs (by simp [hrv])
+  cases hR with
+  | main hsub' _ => rw [hsub] at hsub'; cases hsub'
+  | sub _ hr0 hcs _ => exact hsubcase hr0 hcs
+  | subFp _ hr0 hcs _ _ _ _ => exact hsubcase hr0 hcs
 
 theorem case_exit {e s ob k L bc rc n σ ic bcs w r w'} (ih : AllX X cfg K env fuel)
     (hb : Blk X.G ob [.ret] (.next k)) (he : ShapeR X.G cfg e s ob L)
@@ -885,13 +1062,20 @@ theorem case_nonce {b e s es k L bc rc n σ ic bcs w r w'} (ih : AllX X cfg K en
     (h : eval env (fuel + 1) (.nonce b e) w = (r, w')) : Goal env.cx X s k L bc rc K.rv n σ ic bcs w r w' := by
   simp only [eval] at h
   have g1 := ih.ev _ _ _ _ _ _ _ σ ic bcs _ _ _ he hwe h
-  refine g1.pre (ReachO.of_block hb (by simp [isSimple]) (fun wm hw _ => ?_))
-  by_cases hlt : σ.length < maxStack
-  · refine .inr ⟨wm, hw, ?_⟩
-    have hle : σ.length ≤ maxStack := Nat.le_of_lt hlt
-    simp only [execOps, execSimple, pushV, hlt, if_true, exec_pop, hle]
+  refine g1.pre (ReachO.of_block hb (by simp [isSimple]) (fun wm hw hinv _ => ?_))
+  by_cases hlt : (σ ++ X.base).length < maxStack
+  · refine .inr ⟨wm, hw, hinv, ?_⟩
+    have hle : (σ ++ X.base).length ≤ maxStack := Nat.le_of_lt hlt
+    simp only [execOps, execSimple, MCtx.onBase, pushV, hlt, if_true, exec_pop, hle]
   · refine .inl ?_
-    simp only [execOps, execSimple, pushV, hlt, if_false, ovf]
+    simp only [execOps, execSimple, MCtx.onBase, pushV, hlt, if_false, ovf]
+
+theorem getSlot_foldl_notin : ∀ (l : List (Nat × Val)) (sc : List (Nat × Val)) (s : Nat), s ∉ l.map (·.1) →
+    getSlot (l.foldl (fun sc (p : Nat × Val) => setSlot sc p.1 p.2) sc) s = getSlot sc s
+  | [], _, _, _ => rfl
+  | (k, v) :: l, sc, s, h => by
+    simp only [List.map_cons, List.mem_cons, not_or] at h
+    rw [List.foldl_cons, getSlot_foldl_notin l _ s h.2, PyTealV.Proofs.C02Spill.getSlot_setSlot, if_neg h.1]
 
 theorem stores_exec {σ ic bcs} : ∀ (vs : List Nat) (vals : List Val) (w : World),
     vals.length = vs.length → (∀ v ∈ vs, v < 256) →
@@ -915,11 +1099,11 @@ theorem stores_exec {σ ic bcs} : ∀ (vs : List Nat) (vals : List Val) (w : Wor
       simp only [List.map_cons, execOps, execSimple, List.cons_append, hv0, if_true, this, List.zip_cons_cons,
         List.foldl_cons]
 
-theorem case_multi {op imms args outs s ob sb k L bc rc n σ ic bcs w r w' k0 p} (ih : AllX X cfg K env fuel)
+theorem case_multi {op imms args outs s ob sb k L bc rc n σ ic bcs w r w' k0 p} (ih : AllX X cfg K env fuel) (hKI : K.ign = X.ign) (hX : X.InvOK)
     (hsb : Blk X.G sb (outs.reverse.map .store) (.next k)) (hb : Blk X.G ob [.prim op imms] (.next sb))
     (ha : ShapeRArgs X.G cfg args s ob L)
-    (hn : n = 0) (hsig : primSigR op = some (k0, p)) (hk : args.length = k0) (hp : p = outs.length)
-    (houts : ∀ v ∈ outs, v < 256) (hwa : wtRArgs K args = true)
+    (hn : n = 0) (hsig : primSigK { K with dyn := false } op = some (k0, p)) (hk : args.length = k0) (hp : p = outs.length)
+    (houts : ∀ v ∈ outs, v < 256 ∧ v ∉ X.ign) (hwa : wtRArgs K args = true)
     (h : eval env (fuel + 1) (.multi op imms args outs) w = (r, w')) :
     Goal env.cx X s k L bc rc K.rv n σ ic bcs w r w' := by
   subst hn
@@ -931,7 +1115,13 @@ theorem case_multi {op imms args outs s ob sb k L bc rc n σ ic bcs w r w' k0 p}
   cases r1 with
   | vals st =>
     obtain ⟨hlen, hr⟩ := g1
-    have pb := prim_block (env := env) (σ := σ) (ic := ic) (bcs := bcs) (w1 := w1) hsig hb (hlen.trans hk)
+    have hkind : Models.Optimizer.framedOps.contains op = true ∨ (K.ign = [] ∧ (op = "loads" ∨ op = "stores")) := by
+      cases (primSigK_cases hsig).2 with
+      | framed hf => exact .inl hf
+      | slot hI hop => exact .inr ⟨hI, hop⟩
+      | dyn _ hd _ => cases hd
+    have pb := prim_block_same (K := K) (env := env) (σ := σ) (ic := ic) (bcs := bcs) (w1 := w1) hKI hX
+      (primSigK_cases hsig).1 hkind hb (hlen.trans hk)
     simp only [] at h
     cases hB : execPrim env.cx op imms w1 st with
     | error f =>
@@ -946,10 +1136,17 @@ theorem case_multi {op imms args outs s ob sb k L bc rc n σ ic bcs w r w' k0 p}
       rw [if_pos hl'] at h
       cases h
       refine ⟨rfl, hr.trans (pb.2.trans (ReachO.of_block hsb (stores_simple _)
-        (fun wm hw _ => .inr ⟨_, SameW.foldl hw (outs.reverse.zip st'), ?_⟩)))⟩
-      have := stores_exec (env := env) (σ := σ) (ic := ic) (bcs := bcs) outs.reverse st' wm
-        (by simpa using hl') (fun v hv => houts v (List.mem_reverse.mp hv))
-      simpa using this
+        (fun wm hw hinv _ => .inr ⟨_, SameW.foldl hw (outs.reverse.zip st'), ?_, ?_⟩)))⟩
+      · refine hX _ _ (fun s hs => ?_) hinv
+        have hns : s ∉ (outs.reverse.zip st').map (·.1) := by
+          intro hmem
+          obtain ⟨pr, hpr, rfl⟩ := List.mem_map.mp hmem
+          have := (List.of_mem_zip hpr).1
+          exact (houts _ (List.mem_reverse.mp this)).2 hs
+        exact getSlot_foldl_notin _ _ _ hns
+      · have := stores_exec (env := env) (σ := σ ++ X.base) (ic := ic) (bcs := bcs) outs.reverse st' wm
+          (by simpa using hl') (fun v hv => (houts v (List.mem_reverse.mp hv)).1)
+        simpa [MCtx.onBase, List.append_assoc] using this
   | _ =>
     simp only [] at h
     cases h
@@ -965,10 +1162,10 @@ open PyTealV.Proofs.Shape (LowRel lowRel_self lowRel_two lowRel_two_one lowRel_o
   lowerExtract_cases evalOp_eq_prim)
 
 /-- common end of all lowered forms -/
-theorem lowered {s ob k L bc rc σ ic bcs w r w' f args args' srcop ops} (ih : AllX X cfg K env f)
+theorem lowered {s ob k L bc rc σ ic bcs w r w' f args args' srcop ops} (ih : AllX X cfg K env f) (hX : X.InvOK)
     (hsrc : Models.Optimizer.framedOps.contains srcop = true) (hsimp : ∀ x ∈ ops, isSimple x = true)
     (hb : Blk X.G ob ops (.next k)) (ha : ShapeRArgs X.G cfg args' s ob L) (hwa : wtRArgs K args' = true)
-    (hrel : LowRel env f args args' w (fun sst gst _ => ∀ wm, BlockSim env.cx ops gst sst srcop σ ic bcs wm))
+    (hrel : LowRel env f args args' w (fun sst gst _ => ∀ τ wm, BlockSim env.cx ops gst sst srcop τ ic bcs wm))
     (h : evalOp env (f + 1) srcop args w = (r, w')) : Goal env.cx X s k L bc rc K.rv 1 σ ic bcs w r w' := by
   simp only [evalOp] at h
   rcases hrel with ⟨msg, w1, hR⟩ | ⟨sst, gst, w1, hR, hR', hS⟩ | ⟨hnv, hR'⟩
@@ -987,24 +1184,26 @@ theorem lowered {s ob k L bc rc σ ic bcs w r w' f args args' srcop ops} (ih : A
       rw [hB] at h
       cases h
       refine .inr (hr.fails (Fails.of_block hb hsimp (fun wm hw => ?_)))
-      have hs := hsim wm
+      have hs := hsim (σ ++ X.base) wm
       unfold BlockSim at hs
       have hc := congR_framed hsrc env.cx [] hw sst
       rw [hB] at hc
       cases hB' : execPrim env.cx srcop [] wm sst with
       | ok x => rw [hB'] at hc; obtain ⟨a, b⟩ := x; exact hc.elim
-      | error e' => rw [hB'] at hs; exact hs
+      | error e' =>
+        rw [hB'] at hs
+        simpa [MCtx.onBase, List.append_assoc] using hs
     | ok x =>
       obtain ⟨st', w2⟩ := x
       rw [hB] at h
       cases h
       have hl1 : st'.length = 1 := by
-        have hs := hsim w1
+        have hs := hsim σ w1
         unfold BlockSim at hs
         rw [hB] at hs
         exact hs.1
-      refine ⟨hl1, hr.trans (ReachO.of_block hb hsimp (fun wm hw _ => ?_))⟩
-      have hs := hsim wm
+      refine ⟨hl1, hr.trans (ReachO.of_block hb hsimp (fun wm hw hinv _ => ?_))⟩
+      have hs := hsim (σ ++ X.base) wm
       unfold BlockSim at hs
       have hc := congR_framed hsrc env.cx [] hw sst
       rw [hB] at hc
@@ -1015,8 +1214,10 @@ theorem lowered {s ob k L bc rc σ ic bcs w r w' f args args' srcop ops} (ih : A
         rw [hB'] at hc hs
         obtain ⟨rfl, hw2⟩ := hc
         obtain ⟨_, hok | hov⟩ := hs
-        · exact .inr ⟨w2', hw2, hok⟩
-        · exact .inl hov
+        · refine .inr ⟨w2', hw2, hX.same (framed_scratch hsrc env.cx [] hB) hinv, ?_⟩
+          simpa [MCtx.onBase, List.append_assoc] using hok
+        · refine .inl ?_
+          simpa [MCtx.onBase, List.append_assoc, ovf] using hov
   · rcases hR : evalArgs env f args w [] with ⟨r1, w1⟩
     rw [hR] at h hR' hnv
     have g1 := ih.args _ _ _ _ [] σ ic bcs _ _ _ ha hwa hR'
@@ -1037,7 +1238,7 @@ theorem wtRArgs1 {s : Expr} (hs : wtR K false false 1 s = true) : wtRArgs K [s] 
 
 theorem wtR_int (n : Nat) : wtR K false false 1 (.int n) = true := by simp only [wtR, beq_self_eq_true]
 
-theorem case_substring {str a b low s ob k L bc rc n σ ic bcs w r w'}
+theorem case_substring (hKI : K.ign = X.ign) (hX : X.InvOK) (hdyn : K.dyn = true → X.dev rangeL ∧ X.dev rangeS) {str a b low s ob k L bc rc n σ ic bcs w r w'}
     (ihs : ∀ f, f ≤ fuel → AllX X cfg K env f)
     (hlow : lowerSubstring cfg.version a b = .ok low) (hb : Blk X.G ob [lowInstr low] (.next k))
     (ha : ShapeRArgs X.G cfg (lowArgs low str a b) s ob L)
@@ -1053,16 +1254,16 @@ theorem case_substring {str a b low s ob k L bc rc n σ ic bcs w r w'}
     have ih := ihs f (Nat.le_succ f)
     rcases lowerSubstring_cases hlow with rfl | ⟨st, en, rfl, rfl, hle, hc⟩
     · rw [evalOp_eq_prim] at h
-      exact case_prim ih (op := "substring3") hb ha (k0 := 3) (p := 1) (by decide) rfl rfl (wtRArgs3 hws hwa hwb) h
+      exact case_prim ih hKI hX hdyn (op := "substring3") (by rw [renOp_same (.inl (by decide))]; exact hb) ha (k0 := 3) (p := 1) (by rw [primSigK_of_framed (by decide)]; decide) rfl rfl (wtRArgs3 hws hwa hwb) h
     · rcases hc with ⟨rfl, h0, h1, h2⟩ | rfl | ⟨rfl, h1, h2⟩
-      · exact lowered ih (by decide) (by simp [lowInstr, isSimple]) hb ha (wtRArgs1 hws)
-          (lowRel_two_one _ _ _ _ _ (fun x w1 wm => sim_sub_extract x hle h1 h2 h0)) h
-      · exact lowered ih (by decide) (by simp [lowInstr, isSimple]) hb ha (wtRArgs3 hws (wtR_int _) (wtR_int _))
-          (lowRel_two _ _ _ _ _ _ _ (fun x w1 wm => sim_sub_consts x hle)) h
-      · exact lowered ih (by decide) (by simp [lowInstr, isSimple]) hb ha (wtRArgs1 hws)
-          (lowRel_two_one _ _ _ _ _ (fun x w1 wm => sim_sub_substring x h1 h2)) h
+      · exact lowered ih hX (by decide) (by simp [lowInstr, isSimple]) hb ha (wtRArgs1 hws)
+          (lowRel_two_one _ _ _ _ _ (fun x w1 τ wm => sim_sub_extract x hle h1 h2 h0)) h
+      · exact lowered ih hX (by decide) (by simp [lowInstr, isSimple]) hb ha (wtRArgs3 hws (wtR_int _) (wtR_int _))
+          (lowRel_two _ _ _ _ _ _ _ (fun x w1 τ wm => sim_sub_consts x hle)) h
+      · exact lowered ih hX (by decide) (by simp [lowInstr, isSimple]) hb ha (wtRArgs1 hws)
+          (lowRel_two_one _ _ _ _ _ (fun x w1 τ wm => sim_sub_substring x h1 h2)) h
 
-theorem case_extract {str a l s ob k L bc rc n σ ic bcs w r w'}
+theorem case_extract (hKI : K.ign = X.ign) (hX : X.InvOK) (hdyn : K.dyn = true → X.dev rangeL ∧ X.dev rangeS) {str a l s ob k L bc rc n σ ic bcs w r w'}
     (ihs : ∀ f, f ≤ fuel → AllX X cfg K env f)
     (hb : Blk X.G ob [lowInstr (lowerExtract a l)] (.next k))
     (ha : ShapeRArgs X.G cfg (lowArgs (lowerExtract a l) str a l) s ob L)
@@ -1079,12 +1280,12 @@ theorem case_extract {str a l s ob k L bc rc n σ ic bcs w r w'}
     rcases lowerExtract_cases a l with hl | ⟨st, ln, rfl, rfl, hl, h1, h0, h2⟩
     · rw [hl] at hb ha
       rw [evalOp_eq_prim] at h
-      exact case_prim ih (op := "extract3") hb ha (k0 := 3) (p := 1) (by decide) rfl rfl (wtRArgs3 hws hwa hwl) h
+      exact case_prim ih hKI hX hdyn (op := "extract3") (by rw [renOp_same (.inl (by decide))]; exact hb) ha (k0 := 3) (p := 1) (by rw [primSigK_of_framed (by decide)]; decide) rfl rfl (wtRArgs3 hws hwa hwl) h
     · rw [hl] at hb ha
-      exact lowered ih (by decide) (by simp [lowInstr, isSimple]) hb ha (wtRArgs1 hws)
-        (lowRel_two_one _ _ _ _ _ (fun x w1 wm => sim_ext_extract x h1 h2 h0)) h
+      exact lowered ih hX (by decide) (by simp [lowInstr, isSimple]) hb ha (wtRArgs1 hws)
+        (lowRel_two_one _ _ _ _ _ (fun x w1 τ wm => sim_ext_extract x h1 h2 h0)) h
 
-theorem case_suffixImm {str st s ob k L bc rc n σ ic bcs w r w'}
+theorem case_suffixImm (hKI : K.ign = X.ign) (hX : X.InvOK) {str st s ob k L bc rc n σ ic bcs w r w'}
     (ihs : ∀ f, f ≤ fuel → AllX X cfg K env f) (hst : st < 256)
     (hb : Blk X.G ob [.prim "extract" [toString st, "0"]] (.next k))
     (ha : ShapeRArgs X.G cfg [str] s ob L)
@@ -1096,10 +1297,10 @@ theorem case_suffixImm {str st s ob k L bc rc n σ ic bcs w r w'}
   match fuel, ihs, h with
   | 0, _, h => simp only [evalOp] at h; cases h; exact unm_goal
   | f + 1, ihs, h =>
-    exact lowered (ihs f (Nat.le_succ f)) (by decide) (by simp [isSimple]) hb ha (wtRArgs1 hws)
-      (lowRel_one_one _ _ _ _ (fun x w1 wm => sim_suffix_imm x hst)) h
+    exact lowered (ihs f (Nat.le_succ f)) hX (by decide) (by simp [isSimple]) hb ha (wtRArgs1 hws)
+      (lowRel_one_one _ _ _ _ (fun x w1 τ wm => sim_suffix_imm x hst)) h
 
-theorem case_suffixGen {str a s ob k L bc rc n σ ic bcs w r w'}
+theorem case_suffixGen (hKI : K.ign = X.ign) (hX : X.InvOK) {str a s ob k L bc rc n σ ic bcs w r w'}
     (ihs : ∀ f, f ≤ fuel → AllX X cfg K env f)
     (hb : Blk X.G ob suffixOps (.next k))
     (ha : ShapeRArgs X.G cfg [str, a] s ob L)
@@ -1111,14 +1312,26 @@ theorem case_suffixGen {str a s ob k L bc rc n σ ic bcs w r w'}
   match fuel, ihs, h with
   | 0, _, h => simp only [evalOp] at h; cases h; exact unm_goal
   | f + 1, ihs, h =>
-    refine lowered (ihs f (Nat.le_succ f)) (by decide) (by simp [suffixOps, isSimple]) hb ha
+    refine lowered (ihs f (Nat.le_succ f)) hX (by decide) (by simp [suffixOps, isSimple]) hb ha
       (by simp only [wtRArgs, hws, hwa, Bool.and_self]) (lowRel_self _ _ _ ?_) h
-    intro st w1 hl wm
+    intro st w1 hl τ wm
     match st, hl with
     | [a', x], _ => exact sim_suffix_gen a' x
 
-theorem step_ev {e s k L bc rc n σ ic bcs w r w'} (hR : RKind X cfg) (hmark : cfg.markIndex = false)
-    (hfp : cfg.frameParams = [])
+/-- what the case lemmas need to know about the routine the tree belongs to -/
+structure RFacts (cx : Ctx) (X : MCtx) (cfg : RCfg) (K : RK) : Prop where
+  ign : K.ign = X.ign
+  inv : X.InvOK
+  mark : cfg.markIndex = false
+  kind : RKind X cfg K
+  /-- with run-time addressed slots the range failures of `loads` / `stores` are permitted -/
+  dyn : K.dyn = true → X.dev rangeL ∧ X.dev rangeS
+  /-- reads of an own parameter under the frame-pointer convention -/
+  dig : ∀ v pr, cfg.frameParams.find? (·.1 == v) = some pr → FrameCell cx X pr.2 v
+  /-- an ignored slot that the routine may read is one of its frame parameters -/
+  own : ∀ v, v ∈ K.ign → v ∈ K.own → cfg.frameParams.find? (·.1 == v) ≠ none
+
+theorem step_ev {e s k L bc rc n σ ic bcs w r w'} (hF : RFacts env.cx X cfg K)
     (ihs : ∀ f, f ≤ fuel → AllX X cfg K env f)
     (hcall : ∀ f args ce s cb k L bc rc n σ ic bcs w r w', cfg.callees.find? (·.id == f) = some ce →
       Blk X.G cb (callOps cfg f ce) (.next k) → ShapeRArgs X.G cfg args s cb L →
@@ -1127,6 +1340,8 @@ theorem step_ev {e s k L bc rc n σ ic bcs w r w'} (hR : RKind X cfg) (hmark : c
     (hs : ShapeR X.G cfg e s k L) (hw : wtR K bc rc n e = true)
     (h : eval env (fuel + 1) e w = (r, w')) : Goal env.cx X s k L bc rc K.rv n σ ic bcs w r w' := by
   have ih := ihs fuel (Nat.le_refl _)
+  have hKI := hF.ign
+  have hX := hF.inv
   cases hs with
   | int hb =>
     simp only [wtR, beq_iff_eq] at hw
@@ -1137,33 +1352,42 @@ theorem step_ev {e s k L bc rc n σ ic bcs w r w'} (hR : RKind X cfg) (hmark : c
   | prim hb ha =>
     rename_i op imms args ob
     simp only [wtR, Bool.and_eq_true] at hw
-    cases hsig : primSigR op with
+    cases hsig : primSigK K op with
     | none => rw [hsig] at hw; exact absurd hw.1 (by simp)
     | some kp =>
       obtain ⟨k0, p⟩ := kp
       rw [hsig] at hw
       simp only [Bool.and_eq_true, beq_iff_eq] at hw
-      exact case_prim ih hb ha hsig hw.1.1 hw.1.2 hw.2 h
+      exact case_prim ih hKI hX hF.dyn hb ha hsig hw.1.1 hw.1.2 hw.2 h
   | load hf hb =>
-    simp only [wtR, Bool.and_eq_true, beq_iff_eq, decide_eq_true_eq] at hw
-    exact case_load hb hw.1 hw.2 h
-  | loadF hf => rw [hfp] at hf; cases hf
+    rename_i v
+    simp only [wtR, Bool.and_eq_true, beq_iff_eq, decide_eq_true_eq, Bool.or_eq_true, Bool.not_eq_true',
+      List.contains_eq_mem, decide_eq_false_iff_not] at hw
+    rcases hw.2 with h1 | h1
+    · exact absurd hf (hF.own v h1.1 h1.2)
+    · exact case_load hb hw.1 h1.1 (hKI ▸ h1.2) h
+  | loadF hf hb =>
+    simp only [wtR, Bool.and_eq_true, beq_iff_eq] at hw
+    exact case_loadF hb hw.1 (hF.dig _ _ hf) h
   | store hb he =>
-    simp only [wtR, Bool.and_eq_true, beq_iff_eq, decide_eq_true_eq] at hw
-    exact case_store ih hb he hw.1.1 hw.1.2 hw.2 h
+    simp only [wtR, Bool.and_eq_true, beq_iff_eq, decide_eq_true_eq, Bool.not_eq_true', List.contains_eq_mem,
+      decide_eq_false_iff_not] at hw
+    exact case_store ih hX hb he hw.1.1.1 hw.1.1.2 (hKI ▸ hw.1.2) hw.2 h
   | index hb =>
     simp only [wtR, beq_iff_eq] at hw
-    exact case_index hmark hb hw h
+    exact case_index hF.mark hb hw h
   | multi hsb hb ha =>
     rename_i op imms args outs ob sb
     simp only [wtR, Bool.and_eq_true] at hw
-    cases hsig : primSigR op with
+    cases hsig : primSigK { K with dyn := false } op with
     | none => rw [hsig] at hw; exact absurd hw.1.1.2 (by simp)
     | some kp =>
       obtain ⟨k0, p⟩ := kp
       rw [hsig] at hw
-      simp only [Bool.and_eq_true, beq_iff_eq, List.all_eq_true, decide_eq_true_eq] at hw
-      exact case_multi ih hsb hb ha hw.1.1.1 hsig hw.1.1.2.1 hw.1.1.2.2 hw.1.2 hw.2 h
+      simp only [Bool.and_eq_true, beq_iff_eq, List.all_eq_true, decide_eq_true_eq, Bool.not_eq_true',
+        List.contains_eq_mem, decide_eq_false_iff_not] at hw
+      exact case_multi ih hKI hX hsb hb ha hw.1.1.1 hsig hw.1.1.2.1 hw.1.1.2.2
+        (fun v hv => ⟨(hw.1.2 v hv).1, hKI ▸ (hw.1.2 v hv).2⟩) hw.2 h
   | seq hss =>
     simp only [wtR] at hw
     simp only [eval] at h
@@ -1200,10 +1424,10 @@ theorem step_ev {e s k L bc rc n σ ic bcs w r w'} (hR : RKind X cfg) (hmark : c
     exact case_assert2 ih hend herr hbr hc hw.1 hw.2 h
   | ret hb he =>
     simp only [wtR, Bool.and_eq_true] at hw
-    exact case_ret ih hR hb he hw.1.1 hw.1.2 hw.2 h
+    exact case_ret ih hF.kind hb he hw.1.1 hw.1.2 hw.2 h
   | retNone hsub hb =>
     simp only [wtR, Bool.and_eq_true, Bool.not_eq_true'] at hw
-    exact case_retNone hR hsub hb hw.1 hw.2 h
+    exact case_retNone hF.kind hsub hb hw.1 hw.2 h
   | exit hb he =>
     simp only [wtR] at hw
     exact case_exit ih hb he hw h
@@ -1222,16 +1446,16 @@ theorem step_ev {e s k L bc rc n σ ic bcs w r w'} (hR : RKind X cfg) (hmark : c
   | wide => simp only [wtR] at hw; cases hw
   | substring hlow hb ha =>
     simp only [wtR, Bool.and_eq_true, beq_iff_eq] at hw
-    exact case_substring ihs hlow hb ha hw.1.1.1 hw.1.1.2 hw.1.2 hw.2 h
+    exact case_substring hKI hX hF.dyn ihs hlow hb ha hw.1.1.1 hw.1.1.2 hw.1.2 hw.2 h
   | extract hb ha =>
     simp only [wtR, Bool.and_eq_true, beq_iff_eq] at hw
-    exact case_extract ihs hb ha hw.1.1.1 hw.1.1.2 hw.1.2 hw.2 h
+    exact case_extract hKI hX hF.dyn ihs hb ha hw.1.1.1 hw.1.1.2 hw.1.2 hw.2 h
   | suffixImm hst hv hb ha =>
     simp only [wtR, Bool.and_eq_true, beq_iff_eq] at hw
-    exact case_suffixImm ihs hst hb ha hw.1.1 hw.1.2 h
+    exact case_suffixImm hKI hX ihs hst hb ha hw.1.1 hw.1.2 h
   | suffixGen hb ha =>
     simp only [wtR, Bool.and_eq_true, beq_iff_eq] at hw
-    exact case_suffixGen ihs hb ha hw.1.1 hw.1.2 hw.2 h
+    exact case_suffixGen hKI hX ihs hb ha hw.1.1 hw.1.2 hw.2 h
 
 end Cases
 
